@@ -929,6 +929,11 @@ func (b *bitstream) readVarUintLen(max uint64) (uint64, uint64, error) {
 			return 0, 0, err
 		}
 
+		if val>>57 != 0 {
+			// Seven more bits do not fit: the value is 2^64 or more.
+			return 0, 0, &SyntaxError{"varuint too large", b.pos - length - 1}
+		}
+
 		val <<= 7
 		val ^= uint64(c & 0x7F)
 		length++
@@ -1021,6 +1026,11 @@ func (b *bitstream) readVarIntLen(max uint64) (int64, int64, uint64, error) {
 		c, err := b.read1()
 		if err != nil {
 			return 0, 0, 0, err
+		}
+
+		if val>>56 != 0 {
+			// Seven more bits do not fit: the magnitude is 2^63 or more.
+			return 0, 0, 0, &SyntaxError{"varint too large", b.pos - length - 1}
 		}
 
 		val <<= 7
